@@ -66,18 +66,37 @@ func (s *session) Connection() net.Conn {
 }
 
 func (s *session) Decrypter() crypto.Decrypter {
-	// Return the next cryptographer when possible
-	// This allows sessions to switch encryption
+	s.mu.Lock()
+	defer s.mu.Unlock()
+
+	// Data which arrives after a new cryptographer was negotiated is
+	// encrypted with the new cryptographer.
 	if s.nextCryptographer != nil {
-		s.cryptographer = s.nextCryptographer
-		s.nextCryptographer = nil
+		return s.nextCryptographer
 	}
 
 	return s.cryptographer
 }
 
 func (s *session) Encrypter() crypto.Encrypter {
+	s.mu.Lock()
+	defer s.mu.Unlock()
+
 	return s.cryptographer
+}
+
+// didWrite is called by the connection after it wrote data.
+// The response to the request which negotiated a new cryptographer is
+// written with the previous one (in plaintext after pair verify); after
+// that the new cryptographer is used for encryption too.
+func (s *session) didWrite() {
+	s.mu.Lock()
+	defer s.mu.Unlock()
+
+	if s.nextCryptographer != nil {
+		s.cryptographer = s.nextCryptographer
+		s.nextCryptographer = nil
+	}
 }
 
 func (s *session) PairSetupHandler() ContainerHandler {
@@ -90,9 +109,11 @@ func (s *session) PairVerifyHandler() PairVerifyHandler {
 
 func (s *session) SetCryptographer(c crypto.Cryptographer) {
 	// Temporarily set the cryptographer as the nextCryptographer
-	// The nextCryptographer is used the next time Decrypter() is called.
-	// Otherwise the Encrypter() encrypts differently than the previous Decrypter()
+	// The nextCryptographer decrypts the data which is received from now on,
+	// and encrypts after the pending response was written, see didWrite().
+	s.mu.Lock()
 	s.nextCryptographer = c
+	s.mu.Unlock()
 }
 func (s *session) SetPairSetupHandler(c ContainerHandler) {
 	s.pairStartHandler = c
